@@ -16,16 +16,8 @@ theorem pin_problem_Problem_validate_constraint_anchor : pin_problem_Problem_val
 theorem pin_problem_Problem_only_simple_bounds_anchor : pin_problem_Problem_only_simple_bounds = "db45e87281100d80" := rfl
 /-- `Problem._has_equality_constraints` (problem.py) -/
 theorem pin_problem_Problem_has_equality_constraints_anchor : pin_problem_Problem_has_equality_constraints = "56258a35419a78c5" := rfl
-/-- `Problem.n_constraints` (problem.py) -/
-theorem pin_problem_Problem_n_constraints_anchor : pin_problem_Problem_n_constraints = "f1d7283affcc2213" := rfl
 /-- `Problem.summary` (problem.py) -/
 theorem pin_problem_Problem_summary_anchor : pin_problem_Problem_summary = "bbcdac853c42d5a8" := rfl
-/-- `Problem.objective` (problem.py) -/
-theorem pin_problem_Problem_objective_anchor : pin_problem_Problem_objective = "dccb3b4cfb408f6b" := rfl
-/-- `Problem.sense` (problem.py) -/
-theorem pin_problem_Problem_sense_anchor : pin_problem_Problem_sense = "f8a0868e8e21138d" := rfl
-/-- `Problem.constraints` (problem.py) -/
-theorem pin_problem_Problem_constraints_anchor : pin_problem_Problem_constraints = "c96f1212141cb5da" := rfl
 /-- `Problem.solve` (problem.py) -/
 theorem pin_problem_Problem_solve_anchor : pin_problem_Problem_solve = "f4e2acd2b640d4bc" := rfl
 /-- `solve_scipy` (solvers/scipy_solver.py) -/
@@ -34,7 +26,7 @@ theorem pin_scipy_solver_solve_scipy_anchor : pin_scipy_solver_solve_scipy = "e7
 theorem pin_lp_solver_solve_lp_anchor : pin_lp_solver_solve_lp = "244fed8ae6b2b560" := rfl
 
 /-- every function the model of C13 transcribes (and no translator covers) is the one it was read from -/
-theorem anchors : pin_problem_Problem_validate_expression = "c1cde4a100b85f9c" ∧ pin_problem_Problem_validate_constraint = "86c81ec384d8e567" ∧ pin_problem_Problem_only_simple_bounds = "db45e87281100d80" ∧ pin_problem_Problem_has_equality_constraints = "56258a35419a78c5" ∧ pin_problem_Problem_n_constraints = "f1d7283affcc2213" ∧ pin_problem_Problem_summary = "bbcdac853c42d5a8" ∧ pin_problem_Problem_objective = "dccb3b4cfb408f6b" ∧ pin_problem_Problem_sense = "f8a0868e8e21138d" ∧ pin_problem_Problem_constraints = "c96f1212141cb5da" ∧ pin_problem_Problem_solve = "f4e2acd2b640d4bc" ∧ pin_scipy_solver_solve_scipy = "e7c69a3a73fa09d9" ∧ pin_lp_solver_solve_lp = "244fed8ae6b2b560" :=
-  ⟨pin_problem_Problem_validate_expression_anchor, pin_problem_Problem_validate_constraint_anchor, pin_problem_Problem_only_simple_bounds_anchor, pin_problem_Problem_has_equality_constraints_anchor, pin_problem_Problem_n_constraints_anchor, pin_problem_Problem_summary_anchor, pin_problem_Problem_objective_anchor, pin_problem_Problem_sense_anchor, pin_problem_Problem_constraints_anchor, pin_problem_Problem_solve_anchor, pin_scipy_solver_solve_scipy_anchor, pin_lp_solver_solve_lp_anchor⟩
+theorem anchors : pin_problem_Problem_validate_expression = "c1cde4a100b85f9c" ∧ pin_problem_Problem_validate_constraint = "86c81ec384d8e567" ∧ pin_problem_Problem_only_simple_bounds = "db45e87281100d80" ∧ pin_problem_Problem_has_equality_constraints = "56258a35419a78c5" ∧ pin_problem_Problem_summary = "bbcdac853c42d5a8" ∧ pin_problem_Problem_solve = "f4e2acd2b640d4bc" ∧ pin_scipy_solver_solve_scipy = "e7c69a3a73fa09d9" ∧ pin_lp_solver_solve_lp = "244fed8ae6b2b560" :=
+  ⟨pin_problem_Problem_validate_expression_anchor, pin_problem_Problem_validate_constraint_anchor, pin_problem_Problem_only_simple_bounds_anchor, pin_problem_Problem_has_equality_constraints_anchor, pin_problem_Problem_summary_anchor, pin_problem_Problem_solve_anchor, pin_scipy_solver_solve_scipy_anchor, pin_lp_solver_solve_lp_anchor⟩
 
 end Optyx.Props.PinsC13
